@@ -109,8 +109,11 @@ ALL_INV = ["OrderMonitors", "NotStuck", "EveryWriteArrives"] + ["Missing_" + k f
           ["Late_" + k for k in ("hstart", "hend", "eof", "onclose", "stopret", "runret")]
 
 
-def validate(run, trace, invariants=None, timeout=3000):
+def validate(run, trace, invariants=None, timeout=3000, first=()):
+    """first: invariants to evaluate first - TLC -continue reports only the first violated invariant of a state, so the
+    invariants that speak for the property being checked must come before the others or they would be masked"""
     invariants = invariants or ALL_INV
+    invariants = [i for i in first if i in invariants] + [i for i in invariants if i not in first]
     body = "INIT InitT\nNEXT NextT\nINVARIANTS %s\nCHECK_DEADLOCK FALSE\n" % " ".join(invariants)
     return run.tlc("GldapTrace", body, env={"OBS": trace}, workers=1, cont=True, timeout=timeout, heap="12g")
 
